@@ -312,6 +312,12 @@ class Run:
                              "tools/extract (Go AST/types pattern extractor)", "correspondence harness + canonicalisation"]
         self.notes = []
         self.known_hit = []
+        for f in os.listdir(REPLAYS):          # replays of earlier runs of this property are stale
+            if f.startswith(prop + "_"):
+                try:
+                    os.remove(os.path.join(REPLAYS, f))
+                except OSError:
+                    pass
 
     def obligation(self, name, ok, detail=""):
         self.obligations.append((name, bool(ok), detail))
@@ -412,7 +418,7 @@ def differential(run, name, ops, go_exe, component, env_extra=None, keep=False, 
     with open(opsf, "w") as f:
         f.write("\n".join(ops) + "\n")
     gof, leanf = os.path.join(d, "go.out"), os.path.join(d, "lean.out")
-    rc, out = run_harness(go_exe, opsf, gof, env_extra=env_extra, timeout=timeout)
+    rc, out = run_harness(go_exe, opsf, gof, env_extra=env_extra, timeout=timeout, run=harness_run)
     err = None
     if rc != 0:
         err = "go harness exit %d: %s" % (rc, out[-2000:])
